@@ -66,6 +66,15 @@ func c10Universe() []c10Ver {
 	return u
 }
 
+// c10Firing: the "e2(newer)" version is the record of an all-resolved notification (no firing alert). It is an entry
+// like any other: kept until its expiry, and it shadows the older "firing" record of the same group and receiver.
+func c10Firing(v c10Ver) []uint64 {
+	if strings.Contains(v.n, "e2(newer)") {
+		return []uint64{}
+	}
+	return []uint64{1, uint64(v.ts)}
+}
+
 func c10Data(kind string) map[string]*pb.ReceiverDataValue {
 	switch kind {
 	case "int":
@@ -80,7 +89,7 @@ func c10Data(kind string) map[string]*pb.ReceiverDataValue {
 
 func c10Bytes(epoch time.Time, v c10Ver) []byte {
 	e := &pb.MeshEntry{Entry: &pb.Entry{Receiver: c10Keys[v.k].r, GroupKey: []byte(c10Keys[v.k].gk), Timestamp: timestamppb.New(epoch.Add(v.ts)),
-		FiringAlerts: []uint64{1, uint64(v.ts)}, ResolvedAlerts: []uint64{2}, ReceiverData: c10Data(v.data)}, ExpiresAt: timestamppb.New(epoch.Add(v.exp))}
+		FiringAlerts: c10Firing(v), ResolvedAlerts: []uint64{2}, ReceiverData: c10Data(v.data)}, ExpiresAt: timestamppb.New(epoch.Add(v.exp))}
 	b, err := vMarshalEntry(e)
 	if err != nil {
 		panic(err)
@@ -153,7 +162,7 @@ func newC10(snap []byte) *c10Sys {
 }
 
 func (y *c10Sys) modelMerge(epoch time.Time, v c10Ver, now time.Time) bool {
-	e := c10Ent{epoch.Add(v.ts), epoch.Add(v.exp), c10DataStr(c10Data(v.data)), fmt.Sprint([]uint64{1, uint64(v.ts)})}
+	e := c10Ent{epoch.Add(v.ts), epoch.Add(v.exp), c10DataStr(c10Data(v.data)), fmt.Sprint(c10Firing(v))}
 	if e.exp.Before(now) {
 		return false
 	}
